@@ -268,7 +268,7 @@ func transitionSentenceBreakState(state int, r rune, b []byte, str string) (newS
 				r, length = utf8.DecodeRuneInString(str)
 				str = str[length:]
 			}
-			if r == utf8.RuneError {
+			if length == 0 { // End of text.
 				break
 			}
 			nextProperty = property(sentenceBreakCodePoints, r)
